@@ -233,6 +233,16 @@ func runScript(sc *script, srcs [][]byte) {
 					j.Out, j.Msg = "io_error", err.Error()
 				}
 				j.Len = len(b)
+			case "symlink":
+				os.Remove(p)
+				if err := os.Symlink(sc.Paths[o.From], p); err != nil {
+					j.Out, j.Msg = "io_error", err.Error()
+				}
+			case "hardlink":
+				os.Remove(p)
+				if err := os.Link(sc.Paths[o.From], p); err != nil {
+					j.Out, j.Msg = "io_error", err.Error()
+				}
 			case "copy":
 				b, err := os.ReadFile(sc.Paths[o.From])
 				if err == nil {
